@@ -848,6 +848,19 @@ pub struct StepInfo {
     pub float_text: Option<String>,
 }
 
+/// An owned String holding `s`, in about half of the cases with spare capacity (owned sources
+/// need not be exact-fit: truncated or pre-reserved Strings are ordinary inputs).
+pub fn owned_with_slack(s: &str) -> String {
+    let h = hash_bytes(0x51AC, s.as_bytes());
+    if h & 1 == 0 {
+        return s.to_string();
+    }
+    let extra = [1usize, 7, 17, 40, 300][(h >> 1) as usize % 5];
+    let mut st = String::with_capacity(s.len() + extra);
+    st.push_str(s);
+    st
+}
+
 fn res_unit<E>(r: Result<(), E>) -> Out {
     match r {
         Ok(()) => Out::Unit,
@@ -885,11 +898,11 @@ fn apply_real_inner(pool: &mut Pool, op: &Op, info: &mut StepInfo) -> Out {
         let built: Result<LeanString, Out> = match op {
             New { .. } => Ok(LeanString::new()),
             FromStr { s, .. } => Ok(LeanString::from(s.as_str())),
-            FromString { s, .. } => Ok(LeanString::from(s.clone())),
+            FromString { s, .. } => Ok(LeanString::from(owned_with_slack(s))),
             FromStringRef { s, .. } => Ok(LeanString::from(s)),
             FromBox { s, .. } => Ok(LeanString::from(s.clone().into_boxed_str())),
             FromCowB { s, .. } => Ok(LeanString::from(Cow::Borrowed(s.as_str()))),
-            FromCowO { s, .. } => Ok(LeanString::from(Cow::<str>::Owned(s.clone()))),
+            FromCowO { s, .. } => Ok(LeanString::from(Cow::<str>::Owned(owned_with_slack(s)))),
             FromChar { c, .. } => Ok(LeanString::from(*c)),
             Parse { s, .. } => s.parse::<LeanString>().map_err(|_| Out::Err),
             FromStatic { id, .. } => Ok(LeanString::from_static_str(static_text(*id))),
